@@ -43,3 +43,8 @@ CASES += [
     {"name": "weak-coupling energies read outside the exciton basis", "kind": "mutant", "rule": "C14-C", "edits": [
         ("quantarhei/builders/aggregate_base.py", "                with eigenbasis_of(Ham):\n                    H = Ham.data\n", "                H = Ham.data\n", 1)]},
 ]
+
+CASES += [
+    {"name": "combined tensor branch leaves the Hamiltonian protected", "kind": "mutant", "rule": "C14-F", "edits": [
+        (O, "                ham.unprotect_basis()\n                ham.recover_cutoff_coupling()", "                ham.recover_cutoff_coupling()", 2)]},
+]
